@@ -280,7 +280,13 @@ def model_events(out, n_clients):
         elif e[0] == "step":
             if e[1] == "P":
                 continue
-            evs.append([1, e[1]])
+            # the model pc the thread must be at for this kind of step, and the sequence number of the frame read / dispatched
+            what, arg = e[2], (e[3] if len(e) > 3 else None)
+            pc = {"looptest": 1, "acquire": 2, "read": 4, "release": 5, "notify_all": 6, "dispatch": 7}.get(what)
+            if pc is None:
+                evs.append([1, e[1]])
+            else:
+                evs.append([1, e[1], pc, arg if (what in ("read", "dispatch") and isinstance(arg, int)) else -1])
     return evs
 
 
